@@ -77,14 +77,17 @@ def sect : Head → String
 /-- kinds of definition a form of this kind may need when it is EVALUATED.  Function and method
     bodies, flavor defaults and slot initforms are evaluated later (calls resolve when made), so
     they need nothing at load time.  A constant's value is written into the defconstant form, and
-    that form is evaluated before every flavor and class: it may hold data only. -/
+    that form is evaluated before every flavor and class: it may hold data only.  A defclass form
+    needs nothing: slip accepts a superclass that is defined later (the class becomes ready when its
+    last superclass is defined; observed with a snapshot that wrote subclasses first), only
+    make-instance needs the class complete — and instances are made by setq forms. -/
 def kindNeeds : Head → List Head
   | require => []
   | defpackage => [defpackage]
   | defconstant => []
   | defflavor => [defflavor]
   | flavorMethod => [defflavor]
-  | defclass => [defclass]
+  | defclass => []
   | defvar => []
   | setq => [defvar, defflavor, defclass, defpackage]
   | usePackage => [defpackage]
